@@ -793,6 +793,25 @@ func (x *Exec) callByContract(fi *FuncInfo, fc *FuncContract, call *ast.CallExpr
 		unsupported("contract call in term mode")
 	}
 	sig := fi.Obj.Type().(*types.Signature)
+	if fc.Flags["robust"] && len(fc.Ghosts) > 0 {
+		// a caller that does not bind the callee's ghosts is checked against the callee's robust view
+		all := true
+		for _, g := range fc.Ghosts {
+			bound := false
+			if x.cx.fc != nil {
+				for _, b := range x.cx.fc.Binds {
+					if (b.Callee == fi.Obj.Name() || b.Callee == fi.Key) && b.Ghost == g.Name {
+						bound = true
+					}
+				}
+			}
+			all = all && bound
+		}
+		if !all {
+			fc = fc.RobustView()
+			x.W.Note("call of " + fi.Key + " checked against its robust view (ghosts not bound)")
+		}
+	}
 	pre := &Scope{x: x, pkg: fi.Pkg.Name, locals: map[string]Term{}}
 	if rv := sig.Recv(); rv != nil {
 		r := recv
